@@ -28,7 +28,7 @@ func main() {
 	o.DeclareSuite("sched", "From Verif Require Import C12.Model.", "case_cache", "run_cache")
 	o.DeclareSuite("caching", "From Verif Require Import C12.Model.", "case_caching", "run_caching")
 	o.DeclareSuite("throttle", "From Verif Require Import C12.Model.", "case_throttle", "run_throttle")
-	o.DeclareSuite("cconc", "From Verif Require Import C12.Model C12.ModelConc.", "case_cconc", "run_cconc")
+	o.DeclareSuite("cconc", "From Verif Require Import C12.Model C12.ModelConc C12.ModelLook.", "case_clook", "run_clook")
 	o.DeclareSuite("tconc", "From Verif Require Import C12.Model C12.ModelConc.", "case_tconc", "run_tconc")
 	o.Rule("cache: histories of Set/Get/Has/Del/sleeper-fire on MemoryCache over 3 keys, clock moved to " +
 		"expiry-1/expiry/expiry+1 ns of stored entries, re-store at the expiry boundary with the old sleeper " +
@@ -40,6 +40,10 @@ func main() {
 		"all three levels: time-to-live zero and negative (cache: 0, -1 ns, one grid step, 1 s, 1 h, down to an expiry instant of exactly 0 " +
 		"and below; caching: ttl_seconds 0 / negative; throttle: absolute epoch equal to now, 1 ns, 1 s, 1 h in the past, epoch 0 and 1, relative <= 0), " +
 		"each probed at +0, +1 ns, +1 s, +1 h, followed by a second store of the same key (sleeper of the dead entry fired never/before/after). " +
+		"cconc/tconc: concurrent plugin calls stopped in every clock reading; cconc also: an entry 1 ns past its time-to-live (or exactly at it, the clock " +
+		"moving on meanwhile) with its sleeper pending, 1-3 look-ups of its key (Get of OnRequest, Has of OnResponse) stopped between their map read and " +
+		"their clock reading, the sleeper fired before / between / after them, every reader set x firing point, both resume orders; then a fill phase " +
+		"(equal-size responses for fresh keys, maximum = 2 or 2.5 entries) and a sweep (one request per key at one instant) whose replayed content is added up by the monitor. " +
 		"distinct = distinct (configuration, history, observed results); non-trivial = contains a replay and a " +
 		"probe at an expiry boundary, a size refusal or a stale sleeper firing")
 	runtime.Gosched()
@@ -107,8 +111,11 @@ func main() {
 	}
 	genJoinAmbiguity(o, t0)
 	genCConc(o, rcc, t0)
+	genCConcExpiryRace(o, t0)
+	genCConcLookRandom(o, o.Rng.Fork(7), t0)
 	genTConcReadings(o, t0)
 	genTConcSchedules(o, rtc, t0)
+	genTConcExpiryRace(o, t0)
 	reportSync(o)
 	o.Finish()
 }
